@@ -17,8 +17,8 @@ from __future__ import annotations
 import ast
 
 from ..lib import *
-from ..twin import check_pairs
-from ._twins import pairs_for, all_pairs
+from ..twin import check_pairs, check_loose
+from ._twins import pairs_for, all_pairs, loose_for, all_loose
 from . import _tables as T
 from . import C13
 
@@ -75,6 +75,7 @@ def check(ctx):
     n_tw = check_pairs(ctx, all_pairs())
     ctx.count("twin_pairs", n_tw)
     ctx.floor("twin_pairs", 85, "functions that exist in both array engines")
+    check_loose(ctx, all_loose())
 
 
 VARIANTS = [
